@@ -42,8 +42,8 @@ theorem mkRecvPacket_uid (s : St) (c seq ph : Nat) (rid : Bytes) (d : RecvData) 
 theorem inv_recvFail {s0 : St} (c seq : Nat) (h : Inv04 s0) : Inv04 (recvFail s0 c seq).1 :=
   Inv04.of_frame (frame_writeAck s0 c seq false) h
 
-theorem inv_recvPacket {s : St} (c seq ph : Nat) (d : RecvData) (h : Inv04 s) : Inv04 (recvPacket s c seq ph d).1 := by
-  unfold recvPacket
+theorem inv_recvOpen {s : St} (c seq ph : Nat) (d : RecvData) (h : Inv04 s) : Inv04 (recvOpen s c seq ph d).1 := by
+  unfold recvOpen
   split
   · exact h
   · rename_i hc
@@ -117,8 +117,8 @@ theorem inv_recvPacket {s : St} (c seq ph : Nat) (d : RecvData) (h : Inv04 s) : 
 
 -- ------------------------------------------------------------------ send
 
-theorem inv_sendTransfer {s s' : St} {a c d amt} (h : Inv04 s) (hs : sendTransfer s a c d amt = .ok s') : Inv04 s' := by
-  unfold sendTransfer at hs
+theorem inv_sendOpen {s s' : St} {a c d amt} (h : Inv04 s) (hs : sendOpen s a c d amt = .ok s') : Inv04 s' := by
+  unfold sendOpen at hs
   split at hs
   · cases hs
   · split at hs
@@ -152,9 +152,9 @@ theorem getSent_some {s : St} {c seq : Nat} {x : Sent} (h : getSent s c seq = so
   have := List.find?_some h
   simpa using this
 
-theorem inv_ackPacket {s s' : St} {c seq ph : Nat} {isTimeout isErr : Bool} (h : Inv04 s)
-    (ha : ackPacket s c seq ph isTimeout isErr = .ok (some s')) : Inv04 s' := by
-  unfold ackPacket at ha
+theorem inv_ackOpen {s s' : St} {c seq ph : Nat} {isTimeout isErr : Bool} (h : Inv04 s)
+    (ha : ackOpen s c seq ph isTimeout isErr = .ok (some s')) : Inv04 s' := by
+  unfold ackOpen at ha
   split at ha
   · cases ha
   · rename_i hc
@@ -254,9 +254,9 @@ theorem pkey_restoreTarget (p : Packet) : pkey (restoreTarget p) = pkey p := by
   obtain ⟨a, b, c, d, e, f, _⟩ := restoreTarget_fields p
   exact pkey_congr a b c d e f
 
-theorem pkey_finalizedRecord (p : Packet) (b : Bool) : pkey (finalizedRecord p b) = pkey p := rfl
+theorem pkey_finalizedRecord (p : Packet) (b : Option PErr) : pkey (finalizedRecord p b) = pkey p := rfl
 
-theorem finalizedRecord_status (p : Packet) (b : Bool) : (finalizedRecord p b).status = p.status := rfl
+theorem finalizedRecord_status (p : Packet) (b : Option PErr) : (finalizedRecord p b).status = p.status := rfl
 
 theorem inv_finalizePacket {s s' : St} {k : Bytes} (h : Inv04 s) (hf : finalizePacket s k = .ok s') : Inv04 s' := by
   unfold finalizePacket at hf
@@ -530,20 +530,26 @@ theorem inv_ofM {s : St} {m : M St} (h : Inv04 s) (hm : ∀ s', m = .ok s' → I
 /-- every operation preserves the C04 invariant -/
 theorem inv_step {s : St} (o : Op) (h : Inv04 s) : Inv04 (step s o).1 := by
   cases o with
-  | recv c seq ph d => exact inv_recvPacket c seq ph d h
-  | send a c d amt => exact inv_ofM h (fun _ e => inv_sendTransfer h e)
+  | recv c seq ph d =>
+    show Inv04 (recvPacket s c seq ph d).1
+    rcases recvPacket_cases s c seq ph d with e | e <;> rw [e]
+    · exact h
+    · exact inv_recvOpen c seq ph d h
+  | send a c d amt => exact inv_ofM h (fun _ e => inv_sendOpen h (sendTransfer_ok e))
   | ack c seq ph isErr =>
     simp only [step]
     split
     · exact h
-    · rename_i s' e; exact inv_ackPacket h e
+    · rename_i s' e; exact inv_ackOpen h (ackPacket_ok e)
     · exact h
   | timeout c seq ph =>
     simp only [step]
     split
     · exact h
-    · rename_i s' e; exact inv_ackPacket h e
+    · rename_i s' e; exact inv_ackOpen h (ackPacket_ok e)
     · exact h
+  | chanClose c => exact inv_ofM h (fun _ e => Inv04.of_frame (frame_setChanClosed e) h)
+  | chanOpen c => exact inv_ofM h (fun _ e => Inv04.of_frame (frame_setChanClosed e) h)
   | finalize a rid ph t src seq => exact inv_ofM h (fun _ e => inv_msgFinalize h e)
   | finalizeByKey a b => exact inv_ofM h (fun _ e => inv_msgFinalizeByKey h e)
   | fulfill a id fee => exact inv_ofM h (fun _ e => inv_msgFulfill h e)
